@@ -6,6 +6,7 @@ import (
 	"testing"
 	"time"
 
+	z "github.com/Oudwins/zog"
 	"pgregory.net/rapid"
 
 	"verifharness/hh"
@@ -18,6 +19,8 @@ type c19Step struct {
 	Mode  string    `json:"mode"`
 	Input model.Val `json:"input"`         // parse: input value; validate: typed value
 	Wrap  string    `json:"wrap,omitempty"` // parse: "" | ptr | ptrptr (the input is handed over behind pointers)
+	// Collect: the caller hands the issues back through the Collect helpers after looking at them
+	Collect string `json:"collect,omitempty"` // "" | each | all | sanitize
 }
 
 type c19Case struct {
@@ -156,6 +159,27 @@ func propC19(c c19Case) hh.Verdict {
 		} else {
 			first[key] = obs
 		}
+		switch st.Collect {
+		case "each":
+			for _, is := range res.All() {
+				z.Issues.Collect(is)
+			}
+		case "all":
+			if res.IsMap {
+				z.Issues.CollectMap(res.Map)
+			} else {
+				z.Issues.CollectList(res.List)
+			}
+		case "sanitize":
+			if res.IsMap {
+				z.Issues.SanitizeMapAndCollect(res.Map)
+			} else {
+				z.Issues.SanitizeListAndCollect(res.List)
+			}
+		}
+		if o := snapshotOwned(env); !reflect.DeepEqual(o, owned0) {
+			return hh.Fail("step %d: handing the issues back through the Collect helpers modified values owned by the schema: before %v after %v", i, owned0, o)
+		}
 		// the caller now owns the destination: whatever it does with it must not reach the schema
 		usedDefault := false
 		c.Root.Walk(func(n *model.Node) {
@@ -192,7 +216,7 @@ func genC19(rt *rapid.T, cfg model.GenCfg) c19Case {
 		}
 		mode := rapid.SampledFrom([]string{"parse", "validate"}).Draw(rt, "mode")
 		typed := g.GenTyped(root)
-		st := c19Step{Mode: mode, Input: typed}
+		st := c19Step{Mode: mode, Input: typed, Collect: rapid.SampledFrom([]string{"", "", "each", "all", "sanitize"}).Draw(rt, "collect")}
 		if mode == "parse" {
 			st.Input, _ = g.Render(root, typed, "root")
 			if root.Kind == model.KStruct {
@@ -212,7 +236,7 @@ func TestC19(t *testing.T) {
 	defer h.Finish()
 	cfg := model.DefaultCfg("parse")
 	cfg.NoCustom = true
-	cfg.PDefault, cfg.PCatch, cfg.PPost, cfg.PVary, cfg.PAbsent, cfg.PJunk = 0.45, 0.2, 0.3, 0.3, 0.3, 0.03
+	cfg.PDefault, cfg.PCatch, cfg.PPost, cfg.PVary, cfg.PAbsent, cfg.PJunk, cfg.POpts = 0.45, 0.25, 0.3, 0.3, 0.3, 0.03, 0.3
 	if h.Thorough() {
 		cfg.MaxDepth, cfg.MaxFields, cfg.MaxElems = 4, 6, 5
 	}
